@@ -34,6 +34,7 @@ func init() {
 }
 
 func runC10(c *Ctx) {
+	runC10Extra(c)
 	const pkg = "service"
 	pf := c.pkgFuncs(pkg)
 
@@ -330,4 +331,153 @@ func runC10(c *Ctx) {
 func regexpQuote(s string) string {
 	r := strings.NewReplacer(`\`, `\\`, `.`, `\.`, `$`, `\$`, `(`, `\(`, `)`, `\)`, `[`, `\[`, `]`, `\]`, `*`, `\*`, `+`, `\+`, `?`, `\?`, `|`, `\|`, `^`, `\^`, `{`, `\{`, `}`, `\}`)
 	return r.Replace(s)
+}
+
+// runC10Extra: rules added after independently produced mutants were missed.
+func runC10Extra(c *Ctx) {
+	// (a) a cancelled transition ends in an error, never in a normal completion
+	for _, name := range []string{"executeTxsConcurrent", "executeTxsSequential"} {
+		fn := c.mustFn("service", "transition", name)
+		if fn == nil {
+			continue
+		}
+		n := 0
+		for _, e := range exitAlts(fn) {
+			if _, cancelled := holds(e.Guards, wTrue("cancelled", `^\$r\.canceled\(\)$`)); !cancelled {
+				continue
+			}
+			n++
+			c.check(definitelyNonNilErr(e.Results[0], e.Guards), "C10.cancel-is-error", name+": a cancelled run returns an error", e.pos(), "ErrTransitionInterrupted", name+" can return "+render(e.Results[0])+" after cancellation: the remaining transactions have no receipts but the block completes")
+		}
+		// no way from `cancelled` to a return that could be nil
+		for _, b := range fn.Blocks {
+			if len(b.Instrs) == 0 {
+				continue
+			}
+			iff, ok := b.Instrs[len(b.Instrs)-1].(*ssa.If)
+			if !ok || render(iff.Cond) != "$r.canceled()" {
+				continue
+			}
+			n++
+			tr, reach := pathAvoiding(fn, b.Succs[0].Instrs[0], func(in ssa.Instruction) bool {
+				r, isRet := in.(*ssa.Return)
+				return isRet && !definitelyNonNilErr(r.Results[0], guardsAtBlock(r.Block()))
+			}, nil)
+			if !reach {
+				if r, isRet := b.Succs[0].Instrs[0].(*ssa.Return); isRet && !definitelyNonNilErr(r.Results[0], guardsAtBlock(b.Succs[0])) {
+					reach = true
+				}
+			}
+			c.check(!reach, "C10.cancel-is-error", name+": cancellation cannot end in a possibly-nil return", iff.Pos(), "every path after canceled() returns a non-nil error", "after cancellation "+name+" can reach a return whose error may be nil ("+traceString(tr)+")")
+		}
+		c.check(n >= 1, "C10.cancel-is-error", name+" checks for cancellation", fn.Pos(), fmt.Sprint(n), "no cancellation check found")
+	}
+	// (b) sequential executor: a stored slot is always followed by the counter increment before the next transaction
+	if fn := c.mustFn("service", "transition", "executeTxsSequential"); fn != nil {
+		var slotStores []*ssa.Store
+		for _, b := range fn.Blocks {
+			for _, in := range b.Instrs {
+				if st, ok := in.(*ssa.Store); ok {
+					if ia, ok := st.Addr.(*ssa.IndexAddr); ok && render(ia.X) == "$2" {
+						slotStores = append(slotStores, st)
+					}
+				}
+			}
+		}
+		c.check(len(slotStores) >= 2, "C10.slot-or-error", "sequential executor slot stores", fn.Pos(), fmt.Sprint(len(slotStores)), "slot stores not found")
+		for _, st := range slotStores {
+			ia := st.Addr.(*ssa.IndexAddr)
+			phi, isPhi := ia.Index.(*ssa.Phi)
+			if !isPhi {
+				c.violate("C10.slot-or-error", "slot index is the transaction counter", st.Pos(), "index "+render(ia.Index))
+				continue
+			}
+			h := phi.Block()
+			body := loopBody(h)
+			reach := map[*ssa.BasicBlock]bool{st.Block(): true}
+			q := []*ssa.BasicBlock{st.Block()}
+			for len(q) > 0 {
+				b := q[0]
+				q = q[1:]
+				for _, sc := range b.Succs {
+					if sc != h && body[sc] && !reach[sc] {
+						reach[sc] = true
+						q = append(q, sc)
+					}
+				}
+			}
+			for i, p := range h.Preds {
+				if !h.Dominates(p) || !reach[p] {
+					continue
+				}
+				e := phi.Edges[i]
+				inc := false
+				seen := map[ssa.Value]bool{}
+				var isInc func(v ssa.Value) bool
+				isInc = func(v ssa.Value) bool {
+					if seen[v] {
+						return true
+					}
+					seen[v] = true
+					switch x := v.(type) {
+					case *ssa.BinOp:
+						k, okK := constInt(x.Y)
+						return x.Op == token.ADD && x.X == ssa.Value(phi) && okK && k == 1
+					case *ssa.Phi:
+						if x == phi {
+							return false
+						}
+						for _, ee := range x.Edges {
+							if !isInc(ee) {
+								return false
+							}
+						}
+						return true
+					}
+					return false
+				}
+				inc = isInc(e)
+				c.check(inc, "C10.slot-or-error", "a stored receipt slot is followed by cnt++ before the next transaction", st.Pos(), "rctBuf[cnt] = rct; cnt++", "after storing rctBuf[cnt] the loop can continue with cnt unchanged: the next receipt overwrites this one and the last slot stays empty")
+			}
+		}
+	}
+	// (c) what is reported is the error that occurred
+	if fn := c.mustFn("service", "transition", "doExecute"); fn != nil {
+		n := 0
+		for _, f := range withAnon(fn) {
+			for _, cs := range c.calls(f, byCallee("transition).reportExecution", "transition).reportValidation")) {
+				_, a := callArgs(cs.Common())
+				if isNilConst(a[0]) {
+					continue
+				}
+				n++
+				c.check(definitelyNonNilErr(a[0], guardsAt(cs.Instr)), "C10.report-the-error", methodName(cs.Common())+" reports the error that was just checked", cs.Pos(), "argument is non-nil on this path", "the value reported ("+render(a[0])+") is not the error tested on this path: a failure is reported as success")
+			}
+		}
+		c.check(n >= 10, "C10.report-the-error", "error report sites in doExecute", fn.Pos(), fmt.Sprint(n), fmt.Sprintf("%d sites", n))
+		// (d) receipts published per list are the ones its execution filled
+		bufOf := map[string]ssa.Value{}
+		for _, cs := range c.calls(fn, byCallee("transition).executeTxs", "transition).executeTxsSequential", "transition).executeTxsConcurrent")) {
+			_, a := callArgs(cs.Common())
+			l := render(a[0])
+			switch {
+			case strings.HasSuffix(l, ".patchTransactions"):
+				bufOf["patch"] = a[2]
+			case strings.HasSuffix(l, ".normalTransactions"):
+				bufOf["normal"] = a[2]
+			}
+		}
+		for _, kind := range []string{"patch", "normal"} {
+			okP := false
+			for _, fs := range fieldStores([]*ssa.Function{fn}, "transition", kind+"Receipts") {
+				cl, isCall := fs.Store.Val.(*ssa.Call)
+				if !isCall || !strings.HasSuffix(calleeName(cl.Common()), "NewReceiptListFromSlice") {
+					continue
+				}
+				okP = bufOf[kind] != nil && cl.Call.Args[1] == bufOf[kind]
+				c.check(okP, "C10.report-the-error", "the "+kind+" receipt list is built from the slots its transactions filled", fs.Store.Pos(), kind+"Receipts ← executeTxs("+kind+"Transactions, …, buf)", "t."+kind+"Receipts is built from another slice than the one executeTxs filled for the "+kind+" transactions")
+			}
+			c.check(okP, "C10.report-the-error", kind+" receipts are published", fn.Pos(), "found", "no store of t."+kind+"Receipts from the executed slots")
+		}
+	}
 }
